@@ -1,5 +1,5 @@
 """Unit registry: which assembled Verus files exist and which properties each carries."""
-from units import expr, builder, smallslices, tables, dfa, bindings, elim, regexp, render, fmtunit, nested, minimize, indent, charcount, repeats, charclass
+from units import expr, builder, smallslices, tables, dfa, bindings, elim, regexp, render, fmtunit, nested, minimize, indent, charcount, repeats, charclass, atom, classes
 
 REGISTRY = {
     'expr':     lambda repo, sd, canary=False: expr.build(repo, sd, canary=canary),
@@ -27,6 +27,9 @@ REGISTRY = {
     'charcount': lambda repo, sd, canary=False: charcount.build(repo, sd, canary=canary),
     'repeats':  lambda repo, sd, canary=False: repeats.build(repo, sd, canary=canary),
     'charclass': lambda repo, sd, canary=False: charclass.build(repo, sd, canary=canary),
+    'atom':     lambda repo, sd, canary=False: atom.build(repo, sd, canary=canary),
+    'classes':  lambda repo, sd, canary=False: classes.build(repo, sd, canary=canary),
+    'stage1':   lambda repo, sd, canary=False: classes.build_stage1(repo, sd, canary=canary),
     'trie':     lambda repo, sd, canary=False: dfa.build_trie(repo, sd, canary=canary),
     'wasm':     lambda repo, sd, canary=False: bindings.build_wasm(repo, sd, canary=canary),
     'python':   lambda repo, sd, canary=False: bindings.build_python(repo, sd, canary=canary),
@@ -34,22 +37,22 @@ REGISTRY = {
 }
 # units whose obligations carry a property (an obligation counts for a property only if its clause is tagged with it)
 PROP_UNITS = {
-    'C01': ['expr', 'elim', 'matrix', 'regexp', 'caseconv', 'split', 'escaper', 'rep', 'dfa', 'dfa_kf', 'trie', 'render', 'format', 'nested', 'charcount', 'minimize'],
+    'C01': ['expr', 'elim', 'matrix', 'regexp', 'caseconv', 'split', 'escaper', 'rep', 'dfa', 'dfa_kf', 'trie', 'render', 'format', 'nested', 'charcount', 'minimize', 'atom'],
     'C02': ['expr', 'elim', 'matrix', 'regexp', 'dfa', 'minimize', 'gates', 'render', 'format', 'charcount', 'charclass'],
-    'C03': ['classify', 'gates', 'trie'],
+    'C03': ['classify', 'gates', 'trie', 'atom', 'classes', 'stage1'],
     'C04': ['caseconv', 'regexp', 'render', 'builder'],
-    'C05': ['trie', 'render', 'rep', 'splice', 'repeats', 'charcount', 'minimize'],
+    'C05': ['trie', 'render', 'rep', 'splice', 'repeats', 'charcount', 'minimize', 'atom', 'stage1'],
     'C06': ['render', 'format', 'trie', 'rep', 'nested', 'indent'],
-    'C07': ['expr', 'elim', 'matrix', 'regexp', 'builder', 'split', 'escaper', 'caseconv', 'rep', 'splice', 'gates', 'render', 'format', 'order', 'dfa', 'minimize', 'trie', 'cli', 'escape', 'classify', 'nested', 'indent', 'charcount', 'repeats', 'charclass'],
+    'C07': ['expr', 'elim', 'matrix', 'regexp', 'builder', 'split', 'escaper', 'caseconv', 'rep', 'splice', 'gates', 'render', 'format', 'order', 'dfa', 'minimize', 'trie', 'cli', 'escape', 'classify', 'nested', 'indent', 'charcount', 'repeats', 'charclass', 'atom', 'classes', 'stage1'],
     'C08': ['render', 'expr', 'regexp', 'format', 'indent'],
-    'C09': ['tables', 'classify'],
+    'C09': ['tables', 'classify', 'classes'],
     'C10': ['builder', 'regexp', 'gates', 'order', 'dfa'],
     'C11': ['escape', 'builder', 'format', 'nested', 'split'],
     'C12': ['cli', 'gates', 'builder'],
-    'C13': ['rep', 'splice', 'repeats', 'builder', 'render', 'trie'],
+    'C13': ['rep', 'splice', 'repeats', 'builder', 'render', 'trie', 'atom', 'stage1'],
     'C14': ['python'],
     'C15': ['render', 'indent'],
-    'C16': ['expr', 'elim', 'matrix', 'regexp', 'dfa', 'dfa_kf', 'minimize', 'trie', 'render', 'format', 'charcount', 'repeats', 'charclass'],
+    'C16': ['expr', 'elim', 'matrix', 'regexp', 'dfa', 'dfa_kf', 'minimize', 'trie', 'render', 'format', 'charcount', 'repeats', 'charclass', 'stage1'],
     'C17': ['wasm'],
 }
 # dfa_kf holds exactly the known-finding clause (its canary would be redundant with dfa's); tables has no function with a context
